@@ -59,6 +59,23 @@ def make_docs(rng, n):
         pkg.body = [rand_para(rng, k)[0] for k in range(150)]
         data, parts = B.build(pkg)
         out.append((pkg, data, parts))
+    # two packages that look at the SAME extensions through different declarations: one declares its own types for jpg / png / gif, the other
+    # declares none and relies on the common-extension table; neither may colour the other, whichever is converted first
+    from mammoth.docx.xmlparser import element as X, text as XT
+    for declare in (True, False):
+        pkg = gen_xml.Package()
+        body = []
+        for k, ext in enumerate(["jpg", "png", "gif", "JPG"]):
+            pkg.media["word/media/image%d.%s" % (k, ext)] = bytes([k, 1, 2, 3])
+            pkg.rels.append(("rIdT%d" % k, "media/image%d.%s" % (k, ext), B.REL + "image"))
+            pic = X("a:graphic", {}, [X("a:graphicData", {}, [X("pic:pic", {}, [X("pic:blipFill", {}, [X("a:blip", {"r:embed": "rIdT%d" % k})])])])])
+            body.append(X("w:p", {}, [X("w:r", {}, [X("w:t", {}, [XT("picture %d" % k)]), X("w:drawing", {}, [X("wp:inline", {}, [pic])])])]))
+        pkg.body = body
+        pkg.content_types["defaults"] = [d_ for d_ in pkg.content_types["defaults"] if d_[0].lower() not in ("jpg", "png", "gif")]
+        if declare:
+            pkg.content_types["defaults"] += [("jpg", "image/jpg"), ("png", "image/x-png"), ("gif", "image/x-gif")]
+        data, parts = B.build(pkg)
+        out.append((pkg, data, parts))
     # a package whose main part is NOT well-formed XML: converting it raises (every time, the same way) — and must leave no trace:
     # whatever is converted after it, or at the same time in another thread, converts as if it had never been there
     import zipfile
